@@ -16,6 +16,7 @@ import nixio
 from nixio.dimensions import RangeDimension, SetDimension, SampledDimension
 
 from ..lib import core, storegen
+from ..extract import linkshape as _ex
 from ..lib.storeimpl import Impl, BadOp, ROLES, err_name
 from ..lib.core import Failure, Disagreement
 
@@ -48,6 +49,17 @@ THEOREMS = [
     "Nix.C05.ticks_link_exclusive",
     "Nix.C05.ticks_link_exclusive_invariant",
     "Nix.C05.ticks_link_exclusive_init",
+    "Nix.C05.frame_link_index_checked",
+    "Nix.C05.linked_frame_values_current_data",
+    "Nix.C05.linked_frame_values_follow_writes",
+    "Nix.C05.linked_frame_unit_label",
+    "Nix.C05.frame_link_replaces_ticks",
+    "Nix.C05.relink_leads_to_new_target",
+    "Nix.C05.shape_checks_before_writes",
+    "Nix.C05.shape_link_data_array_writes",
+    "Nix.C05.shape_link_data_frame_writes",
+    "Nix.C05.shape_remove_link_and_ticks",
+    "Nix.C05.shape_membership_by_object",
 ]
 ASSUMPTIONS = [
     "HDF5 hard links are second names of one object (modelled: a link stores the target node's key); h5py object "
@@ -56,10 +68,13 @@ ASSUMPTIONS = [
     "copy cases are checked by the implementation-side oracle only)",
     "array content is the exact rational value of the stored doubles; NumPy basic indexing with integers and one "
     "full slice is modelled by row-major offset arithmetic (Pure/DimLink.lean selectVector)",
-    "links of a dimension to a DataFrame column, the pre-1.5 alias-range layout and polynomial calibration are "
-    "outside the model (DimensionLink reads the stored values)",
+    "data frames are modelled in the one form the generators build (float columns with distinct names, one unit per "
+    "column, write_column by index); link_data_array handed a DataFrame (accepted by the code, which never looks at "
+    "the class of its argument) is not generated",
+    "the pre-1.5 alias-range layout and polynomial calibration are outside the model (DimensionLink reads the "
+    "stored values)",
 ]
-TRUSTED_EXTRA = ["harness/lib/storeimpl.py + storegen.py + harness/props/c05.py Impl5 (path addressing by iteration, "
+TRUSTED_EXTRA = ["harness/extract/linkshape.py (ast translator of the link methods), harness/lib/storeimpl.py + storegen.py + harness/props/c05.py Impl5 (path addressing by iteration, "
                  "access through a dimension link via DimensionLink._linked_group)"]
 READY = True
 MANIFEST = {
@@ -70,19 +85,36 @@ MANIFEST = {
                   "succeed iff the item has the right kind and is the object stored under its name in the owning block "
                   "(sources: its id occurs in the block's source tree), otherwise the graph is unchanged; a linked "
                   "range/set dimension reads the selected vector of the array's current data and the array's unit/label, "
-                  "explicit ticks and a link exclude each other after every dimension operation. Tied to the code by "
+                  "a range/set dimension linked to a column of a data frame (link_data_frame) reads that column of the frame's "
+                  "current rows, the column's unit and name, also after write_column through any path; a re-link leads to the "
+                  "node handed in whatever id it carries; "
+                  "explicit ticks and a link exclude each other after every dimension operation. The statement lists of "
+                  "link_data_array / link_data_frame / remove_link / the ticks setter, the membership tests in front of "
+                  "every link assignment and the object comparisons of Container.__contains__ / SourceLinkContainer are "
+                  "regenerated from the sources (Generated/LinkShape.lean): theorems show that all checks precede the first "
+                  "write and that the generated writes are the model's. Tied to the code also by "
                   "differential execution of seeded histories on real HDF5 files (2-3 blocks with equal names, every "
                   "mutation through a random path, read back through all paths, HDF5-level dumps) and an "
-                  "implementation-side oracle including id-keeping block copies.",
+                  "implementation-side oracle whose scene holds pairs of distinct entities with the same id (id-keeping copies "
+                  "inside a block, across blocks, a whole copied block, a copied section), keeps its books by HDF5 object "
+                  "identity and re-points every kind of link (lists, positions/extents, feature data, metadata, dimension "
+                  "links to arrays and frame columns) between such pairs.",
     "level_note": "Partial aspects: the invariant 'no range dimension has both ticks and a link' is proved to hold initially "
-                  "and to be kept (for all descriptors of the file) by set-ticks, link_data_array, remove_link, set-labels, unit/label "
-                  "writes and data writes; the lift to arbitrary histories (Nix.C05.ExclusiveInvariant, kept as a statement) also needs "
+                  "and to be kept (for all descriptors of the file) by set-ticks, link_data_array, link_data_frame, remove_link, "
+                  "set-labels, unit/label writes, array data writes and frame column writes; the lift to arbitrary histories (Nix.C05.ExclusiveInvariant, kept as a statement) also needs "
                   "frame facts about append_*_dimension and the structural operations, which are only checked by the "
                   "correspondence. append_effect / linked-dimension theorems assume the fresh-key condition of the graph "
-                  "(node? nextKey = none; C03's reachable_wf provides it for reachable graphs). DataFrame-column links, "
-                  "the legacy alias layout and calibration are not modelled. Trusted: Lean kernel, standard axioms, the "
+                  "(node? nextKey = none; C03's reachable_wf provides it for reachable graphs). Id-keeping copies occur "
+                  "only in the implementation-side oracle, not in the modelled histories (the theorems hold for arbitrary "
+                  "graphs, so also for graphs with equal ids). The legacy alias layout and calibration are not modelled. Trusted: Lean kernel, standard axioms, the "
                   "correspondence harness, h5py/HDF5 hard-link semantics.",
 }
+
+
+
+def extract(repo):
+    return _ex.extract(repo)
+
 
 DIMKIND = {RangeDimension: "dim_range", SetDimension: "dim_set", SampledDimension: "dim_sample"}
 
@@ -126,7 +158,8 @@ class Impl5(Impl):
                     grp = dl._linked_group()
                 except Exception:
                     raise BadOp("dangling link")
-                cur = nixio.DataArray(self.f, cur._parent, grp)
+                cls = nixio.DataFrame if dl._data_object_type == "DataFrame" else nixio.DataArray
+                cur = cls(self.f, cur._parent, grp)
                 i += 2
                 continue
             if not isinstance(cur, nixio.File) and seg in ROLES:
@@ -207,11 +240,13 @@ class Impl5(Impl):
             return {"strs": [str(v) for v in ls]}
 
         target = None
+        isframe = dl is not None and dl._data_object_type == "DataFrame"
         if dl is not None:
             if dangling:
                 target = "dangling"
             else:
-                target = self.ident(nixio.DataArray(self.f, dim._parent._parent, dl._linked_group()))
+                cls = nixio.DataFrame if isframe else nixio.DataArray
+                target = self.ident(cls(self.f, dim._parent._parent, dl._linked_group()))
         return {
             "kind": kind,
             "has_link": bool(dim.has_link),
@@ -221,9 +256,16 @@ class Impl5(Impl):
             "unit": None if kind == "dim_set" else field(lambda: dim.unit),
             "label": field(lambda: dim.label),
             "link_id": self.cid(dl.id) if dl is not None else None,
-            "index": [int(x) for x in dl.index] if dl is not None else None,
+            "index": ([int(dl.index)] if isframe else [int(x) for x in dl.index]) if dl is not None else None,
+            "link_type": dl._data_object_type if dl is not None else None,
             "target": target,
         }
+
+    def run(self, op):
+        out = Impl.run(self, op)
+        if out.get("err") == "UnsupportedLinkType":      # (a class of its own in nixio; the structural model says ValueError)
+            out = {"err": "ValueError"}
+        return out
 
     def _run(self, op):
         kind = op[0]
@@ -255,6 +297,25 @@ class Impl5(Impl):
         if kind == "dim_link":
             dim = self.dim(op[1], op[2])
             dim.link_data_array(self.nav(op[3]), list(op[4]))
+            return None
+        if kind == "create_df":
+            owner = self.nav(op[1])
+            if not isinstance(owner, nixio.Block):
+                raise AttributeError("create_data_frame")
+            rows = [tuple(unfr(v) for v in r) for r in op[6]]
+            df = owner.create_data_frame(self.name_arg(op[2]), op[3], col_names=list(op[4]),
+                                         col_dtypes=[float] * len(op[4]), data=rows)
+            df.units = list(op[5])
+            return None
+        if kind == "df_write_col":
+            df = self.nav(op[1])
+            if not isinstance(df, nixio.DataFrame):
+                raise AttributeError("write_column")
+            df.write_column([unfr(v) for v in op[3]], index=int(op[2]))
+            return None
+        if kind == "dim_link_df":
+            dim = self.dim(op[1], op[2])
+            dim.link_data_frame(self.nav(op[3]), int(op[4]))
             return None
         if kind == "dim_unlink":
             self.dim(op[1], op[2]).remove_link()
@@ -347,7 +408,7 @@ def survey(impl):
         bp = ["data", b.name]
         reg(b, "block", b.name, bp)
         for cname, kind in (("data_arrays", "data_array"), ("tags", "tag"), ("multi_tags", "multi_tag"),
-                            ("groups", "group")):
+                            ("groups", "group"), ("data_frames", "data_frame")):
             for e in getattr(b, cname):
                 reg(e, kind, b.name, bp + [cname, e.name])
         sources(b, bp, b.name)
@@ -449,6 +510,10 @@ class Gen5:
             for nm in ARR_NAMES[:rng.choice([3, 4, 5])]:
                 shape = [rng.choice([2, 3])] if nm in ("pos", "ext") else rng.choice(SHAPES)
                 self.do(["create_da", bp, nm, "t", shape, self.rvals(shape)])
+            for fn in ("df", "x")[:rng.choice([1, 2])]:          # (a frame may share its name with an array)
+                nrows = rng.choice([2, 3])
+                rows = [[fr(i), fr(rng.randrange(-8, 8) / 2.0), fr(rng.randrange(5))] for i in range(nrows)]
+                self.do(["create_df", bp, fn, "t", ["t", "v", "w"], ["s", "mV", "kg"], rows], "create_df")
             for g in ("g", "h")[:rng.choice([1, 2])]:
                 self.do(["create", bp, "group", g, "t", None])
             self.do(["create", bp, "tag", "tg", "t", None])
@@ -514,8 +579,9 @@ class Gen5:
         ents, dims, feats = survey(self.impl)
         weights = {
             "links": [("append", 0.3), ("role", 0.14), ("mutate", 0.2), ("write", 0.08), ("dim", 0.12), ("unlink", 0.06),
-                      ("delete", 0.04), ("feature", 0.06)],
-            "dims": [("dim", 0.5), ("write", 0.2), ("mutate", 0.12), ("append", 0.1), ("delete", 0.04), ("role", 0.04)],
+                      ("delete", 0.04), ("feature", 0.06), ("fwrite", 0.02)],
+            "dims": [("dim", 0.5), ("write", 0.16), ("fwrite", 0.08), ("mutate", 0.12), ("append", 0.08), ("delete", 0.04),
+                     ("role", 0.04)],
         }[self.profile]
         r = rng.random() * sum(w for _, w in weights)
         action = weights[-1][0]
@@ -625,7 +691,7 @@ class Gen5:
 
     def a_mutate(self, ents, dims, feats):
         rng = self.rng
-        k = self.pick_aliased(ents, ["data_array", "tag", "multi_tag", "source", "section", "group"])
+        k = self.pick_aliased(ents, ["data_array", "tag", "multi_tag", "source", "section", "group", "data_frame"])
         if k is None:
             return
         attr = rng.choice(["definition", "type", "label", "unit"] if k.kind == "data_array" else ["definition", "type"])
@@ -651,6 +717,24 @@ class Gen5:
         for ap, i, _, tid in dims:
             if tid is not None and ents.get(tid) is k:
                 self.do(["dim_read", ap, i], "dim_read/after-write")
+
+    def a_fwrite(self, ents, dims, feats):
+        """rewrite one column of a data frame through any path to it; dimensions linked to it follow"""
+        rng = self.rng
+        k = self.pick_aliased(ents, ["data_frame"])
+        if k is None:
+            return
+        try:
+            nrows = len(self.impl.nav(k.paths[0]))
+        except Exception:
+            return
+        c = rng.choice([0, 1, 2, 2, 1, 3]) if rng.random() < 0.3 else rng.randrange(3)
+        n = nrows + (1 if rng.random() < 0.06 else 0)
+        vals = [fr(rng.randrange(-20, 40) / 4.0) for _ in range(n)]
+        self.do(["df_write_col", self.anypath(k), c, vals], "df_write_col/%d-paths" % min(len(k.paths), 4))
+        for ap, i, _, tid in dims:
+            if tid is not None and ents.get(tid) is k:
+                self.do(["dim_read", ap, i], "dim_read/after-frame-write")
 
     def a_dim(self, ents, dims, feats):
         rng = self.rng
@@ -683,12 +767,24 @@ class Gen5:
         ap, i, dkind, tid = rng.choice(dims)
         owner = next((k for k in ents.values() if k.paths[0] == ap), None)
         via = self.anypath(owner) if owner else ap
-        if r < 0.6:
+        if r < 0.37 and rng.random() < 0.45:
+            # a column of a data frame (valid, out of range, negative; rarely not a frame at all)
+            tgt = self.pick(ents, "data_frame") if rng.random() < 0.85 else self.pick(ents)
+            if tgt is None:
+                return
+            c = rng.choice([-1, 3, 4, 0]) if rng.random() < 0.25 else rng.randrange(3)
+            self.do(["dim_link_df", via, i, self.anypath(tgt), c],
+                    "dim_link_df/%s%s" % (dkind, "" if 0 <= c < 3 else "/out-of-range"))
+        elif r < 0.6:
             q = rng.random()
             if q < 0.8:
                 tgt = self.pick(ents, "data_array", block=None)
             else:
-                tgt = self.pick(ents)
+                # anything but a frame: link_data_array does not look at the class of its argument, and a DataFrame
+                # happens to have a data_extent (it would be linked as if it were an array; not modelled)
+                tgt = self.pick(ents, rng.choice(["tag", "multi_tag", "group", "source", "section", "block", "data_array"]))
+            if tgt is None:
+                return
             shape = self.shape_of(tgt) if tgt.kind == "data_array" else [2]
             bad = rng.random() < 0.3
             iv = self.index_vector(shape, bad)
@@ -713,7 +809,7 @@ class Gen5:
         if out.get("has_link") and isinstance(out.get("target"), list):
             # the linked array through the dimension link and directly
             self.do(["read", ap + ["dimensions", str(i), "link", 0]])
-            tk = next((k for k in ents.values() if k.kind == "data_array" and tid is not None
+            tk = next((k for k in ents.values() if k.kind in ("data_array", "data_frame") and tid is not None
                        and ents.get(tid) is k), None)
             if tk is not None:
                 self.do(["read", tk.paths[0]])
